@@ -1,0 +1,68 @@
+//! C23 — wrapper around the private `prune_non_relay_paths`
+//! (`socket/remote_map/remote_state/path_state.rs`).
+//!
+//! Paths are named by a small integer id; the wrapper builds a distinct
+//! `transports::Addr` of the requested kind for every id.
+use std::{
+    collections::HashMap,
+    net::{Ipv4Addr, Ipv6Addr, SocketAddr, SocketAddrV4, SocketAddrV6},
+    time::Duration,
+};
+
+use iroh_base::{CustomAddr, RelayUrl, SecretKey};
+use n0_future::time::Instant;
+
+use crate::socket::{remote_map::verif_path_state as ps, transports};
+
+/// `(MAX_NON_RELAY_PATHS, MAX_INACTIVE_NON_RELAY_PATHS)` as compiled.
+pub fn consts() -> (usize, usize) {
+    (ps::MAX_NON_RELAY_PATHS, ps::MAX_INACTIVE_NON_RELAY_PATHS)
+}
+
+/// Address kinds: 0 IPv4, 1 relay, 2 custom transport, 3 IPv6.
+pub(crate) fn addr(id: u64, kind: u8) -> transports::Addr {
+    match kind {
+        1 => {
+            let url: RelayUrl = url::Url::parse(&format!("https://r{}.verif.invalid", id % 3))
+                .unwrap()
+                .into();
+            let mut key = [7u8; 32];
+            key[..8].copy_from_slice(&id.to_le_bytes());
+            transports::Addr::Relay(url, SecretKey::from_bytes(&key).public())
+        }
+        2 => transports::Addr::Custom(CustomAddr::from_parts(id % 5, &id.to_be_bytes())),
+        3 => transports::Addr::Ip(SocketAddr::V6(SocketAddrV6::new(
+            Ipv6Addr::new(0x2001, 0xdb8, 0, 0, 0, 0, (id >> 16) as u16, id as u16),
+            4433,
+            0,
+            0,
+        ))),
+        _ => transports::Addr::Ip(SocketAddr::V4(SocketAddrV4::new(
+            Ipv4Addr::new(10, (id >> 24) as u8, (id >> 16) as u8, 1),
+            id as u16,
+        ))),
+    }
+}
+
+/// One path: `(id, kind, status, close time in ns after a common base)`;
+/// status 0 open, 1 inactive, 2 unusable, 3 unknown.
+pub type Entry = (u64, u8, u8, u64);
+
+/// Builds the map from `entries` (inserted in the given order, ids must be distinct),
+/// records the map's iteration order, runs `prune_non_relay_paths`, and returns
+/// `(entries in iteration order before pruning, ids surviving)`.
+pub fn prune(entries: &[Entry]) -> (Vec<Entry>, Vec<u64>) {
+    let base = Instant::now();
+    let mut map = ps::Paths::new();
+    let mut ids: HashMap<transports::Addr, Entry> = HashMap::new();
+    for e in entries {
+        let a = addr(e.0, e.1);
+        map.insert(a.clone(), e.2, base + Duration::from_nanos(e.3));
+        let prev = ids.insert(a, *e);
+        assert!(prev.is_none(), "duplicate id {}", e.0);
+    }
+    let before: Vec<Entry> = map.entries().iter().map(|(a, _, _)| ids[a]).collect();
+    map.prune();
+    let after: Vec<u64> = map.entries().iter().map(|(a, _, _)| ids[a].0).collect();
+    (before, after)
+}
